@@ -25,4 +25,4 @@ for m in mutants.M:
     tgt = r["props"].get(m["prop"], {})
     print(f"{m['id']:42s} suite={'ok ' if r.get('suite_passes_with_patch') else 'FAIL'} target {m['prop']}={tgt.get('status')}  fired={fired} {other}  {(tgt.get('keys') or [''])[0][:110]}", flush=True)
     rows.append(dict(id=m["id"], prop=m["prop"], suite=r.get("suite_passes_with_patch"), fired=fired, other=other, note=m.get("note", "")))
-json.dump(rows, open(os.path.join(ROOT, "selftest", "own_results.json" if not only else "/tmp/own_partial.json"), "w"), indent=1)
+json.dump(rows, open(os.environ.get("RESULTS_OUT") or (os.path.join(ROOT, "selftest", "own_results.json") if not only else "/tmp/own_partial.json"), "w"), indent=1)
